@@ -58,10 +58,14 @@ def row(sec, sd, act, sh=None, aps=None, af=None, td=None, split=None):
     day = datetime.date.fromisoformat(sd).toordinal()
     r = {"sec": sec, "sd": day, "td": datetime.date.fromisoformat(td).toordinal() if td else day - 2,
          "act": act, "af": af, "com": None, "cur": None, "rate": None}
+    def num(x):
+        if isinstance(x, tuple):
+            return x if isinstance(x[0], str) else D(*x)
+        return D(x)
     if sh is not None:
-        r["sh"] = D(*sh) if isinstance(sh, tuple) else D(sh)
+        r["sh"] = num(sh)
     if aps is not None:
-        r["aps"] = D(*aps) if isinstance(aps, tuple) else D(aps)
+        r["aps"] = num(aps)
     if split:
         r["split"] = split
     return r
